@@ -185,7 +185,9 @@ def limits(ctx):
             want = I[0] * np.exp(-gamma * (t - t[0]))
             # SIR: S constant.  SIS: recovering nodes return to S, so the matching statement is S = N - I.
             Swant = S[0] * np.ones_like(S) if e["sir"] else (S[0] + I[0]) - want
-            if np.max(np.abs(I - want)) > 1e-6 * N or np.max(np.abs(S - Swant)) > 1e-6 * N:
+            # (odeint's default rtol/atol of 1.5e-8 apply per component and per step; the sum over N node-level components
+            # was seen 5.1e-6 off on a thorough run with N = 5: 1e-5 N is "to solver tolerance", a wrong rate is >= 1e-2 off)
+            if np.max(np.abs(I - want)) > 1e-5 * N or np.max(np.abs(S - Swant)) > 1e-5 * N:
                 ctx.violation("%s with tau=0: I(t) is not I(0)exp(-gamma t) with S constant (max dev %.3g / %.3g)" % (
                     name, float(np.max(np.abs(I - want))), float(np.max(np.abs(S - S[0])))), rep)
     for fam in families:
